@@ -7,7 +7,8 @@
    StoreChunk / GetChunk call fail.  All theorems quantify over every schedule (list btid), every
    worker count, every fault oracle, every job list (duplicates included). *)
 From Coq Require Import List NArith Arith Bool.
-From DS Require Import Base.Bytes Base.Hash Base.Sched Model.Pool Model.BulkWrite Proofs.BulkWriteProofs.
+From DS Require Import Base.Bytes Base.Hash Base.Sched Model.Pool Model.BulkWrite Model.MakeCancel
+     Proofs.BulkWriteProofs Proofs.MakeCancelProofs.
 Import ListNotations.
 
 (* At every point of every schedule: an id in ChunkStorage.processed is present in the target
@@ -33,6 +34,42 @@ Theorem C06_bulk_complete : forall H mode jobs src fault can_cancel store0 nw sc
     exists b, lookup (b_store s) (jid H mode jobs k) = Some b /\ H b = jid H mode jobs k.
 Proof. exact bulk_complete. Qed.
 Print Assumptions C06_bulk_complete.
+
+(* The same spelled out for a context that may be cancelled at ANY step of the schedule (before the
+   start, between two jobs, after the feeder handed out the last job while the last bodies are in
+   flight, ...): the workers of the model never look at the context, so success still means complete.
+   A worker that drops its chunk once the context is cancelled (seeded mutant C06-1) is outside this
+   model; the harness catches it by cancelling at exactly these points. *)
+Theorem C06_cancel_complete : forall H mode jobs src fault store0 nw sched,
+  store_ok H store0 -> (mode = MCopy -> src_ok H src) ->
+  let s := run (bstep H mode jobs src fault true) sched (binit store0 nw) in
+  bfinal s = true -> bulk_result s = RNil ->
+  forall k, k < njobs jobs ->
+    exists b, lookup (b_store s) (jid H mode jobs k) = Some b /\ H b = jid H mode jobs k.
+Proof. exact bulk_cancel_complete. Qed.
+Print Assumptions C06_cancel_complete.
+
+(* IndexFromFile (make) under cancellation, on the abstraction of Model/MakeCancel.v ([stop_at i] = the
+   chunks worker i emits when it is not interrupted, C02's subject): nil => every bucket that went into
+   the index is its worker's complete bucket and the collector stopped on coverage or after the last
+   worker; for every schedule, worker count and cancellation point. *)
+Theorem C06_make_cancel_sound : forall stop_at need can_cancel nw sched,
+  let s := run (mstep stop_at need true can_cancel) sched (minit nw) in
+  m_res s = Some RNil ->
+  (forall k, k < length (m_got s) -> nth k (m_got s) 0 = stop_at k) /\
+  (need <= fold_right plus 0 (m_got s) \/ nw <= length (m_got s)).
+Proof. exact make_cancel_sound. Qed.
+Print Assumptions C06_make_cancel_sound.
+
+(* ... and the variant in which the interrupted worker does not set c.err (seeded mutant C06-2) is refuted:
+   nil with an empty index, where the code as it is returns Interrupted. *)
+Theorem C06_make_noerr_refuted : forall stop_at need, 0 < stop_at 0 -> 0 < need ->
+  exists nw sched,
+    let s := run (mstep stop_at need false true) sched (minit nw) in
+    m_res s = Some RNil /\ m_got s = [0] /\
+    m_res (run (mstep stop_at need true true) sched (minit nw)) = Some RInterrupted.
+Proof. exact make_noerr_refuted. Qed.
+Print Assumptions C06_make_noerr_refuted.
 
 (* Without any premise: nil => every chunk of the index is present in the target. *)
 Theorem C06_bulk_complete_present : forall H mode jobs src fault can_cancel store0 nw sched,
@@ -167,4 +204,14 @@ Proof. vm_compute. repeat split; reflexivity. Qed.
 Example C06_example_stream :
   let s := run_rr ex_H MStream ex_jobs (fun _ => None) no_fault false 100 2 (binit [] 2) in
   bfinal s = true /\ bulk_result s = RNil /\ stream_index ex_jobs s = [Some 3; Some 3; Some 7]%N.
+Proof. vm_compute. repeat split; reflexivity. Qed.
+
+(* cancel after the feeder handed out the last id, while both downloads are in flight: the workers finish,
+   nobody reports Interrupted, the result is nil -- and complete *)
+Example C06_example_cancel_after_last_handout :
+  let src := fun i => if N.eqb i 3%N then Some [1; 2]%N else if N.eqb i 7%N then Some [3; 4]%N else None in
+  let s := run (bstep ex_H MCopy [(3%N, []); (7%N, [])] src no_fault true)
+             [BWorker 0; BWorker 1; BFeeder; BCancel;
+              BWorker 0; BWorker 0; BWorker 0; BWorker 1; BWorker 1; BWorker 1; BWorker 0; BWorker 1] (binit [] 2) in
+  bfinal s = true /\ b_ext s = true /\ bulk_result s = RNil /\ has (b_store s) 3%N = true /\ has (b_store s) 7%N = true.
 Proof. vm_compute. repeat split; reflexivity. Qed.
